@@ -69,7 +69,8 @@ class _TimeShim:
         return getattr(time, name)
 
 
-_TIME_MODULES = ("httpcore._async.http11", "httpcore._async.http2", "httpcore._sync.http11", "httpcore._sync.http2")
+_TIME_MODULES = ("httpcore._async.http11", "httpcore._async.http2", "httpcore._sync.http11", "httpcore._sync.http2",
+                 "httpcore._async.connection_pool", "httpcore._sync.connection_pool", "httpcore._async.connection", "httpcore._sync.connection")
 
 
 class patched_time:
@@ -83,6 +84,8 @@ class patched_time:
         shim = _TimeShim(self.clock)
         for name in _TIME_MODULES:
             mod = importlib.import_module(name)
+            if not hasattr(mod, "time"):
+                continue  # this module does not read the clock (in this version of the library)
             self.saved.append((mod, mod.time))
             mod.time = shim
         return self
